@@ -27,7 +27,7 @@ CHECKS = {
         design="2/C05"),
     "C06": dict(
         technique="exhaustive case enumeration + depth-bounded explicit-state BFS over write histories; differential oracle handle vs rebuilt view at every nesting level",
-        text="After construction (whole universe) and after every write event (history sub-universe, depth 1 quick / 2 thorough) the view rebuilt from (buffer, offset) and the rebuilt view of every nested compound agree with the constructor-side handles on value at every index, shape, strides, size, item/field offsets and cached structure.",
+        text="After construction (whole universe) and after every write event (history sub-universe, depth 2 quick / 3 thorough) the view rebuilt from (buffer, offset) and the rebuilt view of every nested compound agree with the constructor-side handles on value at every index, shape, strides, size, item/field offsets and cached structure.",
         note="Stand-alone union references are compared through their target.",
         design="2/C06"),
     "C07": dict(
@@ -51,8 +51,8 @@ CHECKS = {
         note="Fitting = same layout for whole-compound assignment; strings up to the slot capacity fixed at creation.",
         design="2/C10"),
     "C11": dict(
-        technique="exhaustive enumeration of the property's misuse classes at every element position (optionally after every legal one-step history), executed on the real objects; raise + unchanged-value oracle",
-        text="Every out-of-range index (each axis x {-1, dim, dim+1}, read and write), wrong-length / reshaping whole-array update, over-long string (+1 byte, +1 slot, +64), same-length list with a larger dynamic item, non-member union value, on every array/string/union position of the history sub-universe with live neighbours; constructor misuse (_buffer of another context with _context, _offset without _buffer) on the whole universe. Must raise; victim and neighbours re-read unchanged.",
+        technique="exhaustive enumeration of the property's misuse classes at every element position (after every legal one-step history in the thorough tier, and after every other refused misuse), executed on the real objects; raise + unchanged-value oracle",
+        text="Every out-of-range index (each axis x {-1, dim, dim+1}, read and write), wrong-length / reshaping whole-array update, over-long string (+1 byte, +1 slot, +64), same-length list with a larger dynamic item, non-member union value, on every array/string/union position of the history sub-universe with live neighbours; constructor misuse (_buffer of another context with _context, _offset without _buffer) on the whole universe. Must raise; victim and neighbours re-read unchanged. Refusals as a history: every misuse of the menu is also applied in the world in which another misuse has just been refused (all pairs in the thorough tier).",
         note="Only the misuse classes named by the property are demanded to raise.",
         design="2/C11"),
 
@@ -68,7 +68,7 @@ CHECKS = {
         design="2/C12"),
     "C13": dict(
         technique="exhaustive enumeration of (buffer kind, capacity, offset, length, primitive, dtype, source layout) with depth-2 follow-up mutations, on the real buffers against a bytearray model",
-        text="Both CPU buffer kinds x capacity 0..10 (thorough 0..20) x every (offset,length) x every copying primitive and source kind/layout/dtype; poisoned background; storage read back directly; extracted copies independent, typed views aliasing (both directions).",
+        text="Both CPU buffer kinds x capacity 0..16 (thorough 0..33) x every (offset,length) x every copying primitive and source kind/layout/dtype; poisoned background; storage read back directly; extracted copies independent, typed views aliasing (both directions).",
         note="Requests outside the capacity are not part of the property.",
         design="2/C13"),
     "C14": dict(
